@@ -112,7 +112,7 @@ def main():
         }
         logs = {}
         for n, sp in specs.items():
-            res, log, txt = R.run_walk(bins, tmp, "st-" + n, sp, 5, 3, 30, 6 if n == "mutex3" else 2, timeout=900)
+            res, log, txt = R.run_walk(bins, tmp, "st-" + n, sp, 5, 3, 30, 6 if n == "mutex3" else 0, timeout=900)
             if res.timed_out or not log.ended:
                 print("harness failure on", n, res.rc, log.errors)
                 return 2
@@ -155,8 +155,8 @@ def main():
         m3 = logs["mutex3"]
         T("C39 a really non-commuting dependent pair declared independent", keys39, m3, specs["mutex3"],
           lambda t: flip_dep(t, want_noncommuting=True, disabled=False), "C39:noncommute:")
-        T("C39 a pair where one disables the other declared independent", keys39, m3, specs["mutex3"],
-          lambda t: flip_dep(t, want_noncommuting=True, disabled=True), "C39:disables:")
+        T("C39 independent pair: the second transition is no longer enabled after the first", keys39, m3, specs["mutex3"],
+          lambda t: make_disabled(t), "C39:disables:")
         T("C39 asymmetric answer on a real pair", keys39, m3, specs["mutex3"],
           lambda t: sub_line(t, lambda l: l.startswith("D ") and "sleep=11" in l, lambda l: l.replace("sleep=11", "sleep=10")), "C39:asymmetric:")
         T("C39 independent pair: try_lock answer differs in the second order", keys39, m3, specs["mutex3"],
@@ -229,6 +229,17 @@ def flip_dep(t, want_noncommuting, disabled):
                 lines[en] = re.sub(r"=(11)", "=00", lines[en])
                 return "\n".join(lines)
     raise LookupError("no dependent non-commuting pair (disabled=%s)" % disabled)
+
+
+def make_disabled(t):
+    for lines, st, en in _indep_complete_blocks(t):
+        b2 = [i for i in range(st, en) if lines[i] == "B 2"][0]
+        cs = [i for i in range(st, b2) if lines[i].startswith("C ")]
+        if len(cs) == 2:
+            aid, times = lines[cs[1]].split()[1:3]
+            x = cs[1] - 1                      # the application's X record precedes the C record
+            return "\n".join(lines[:x] + ["N %s %s" % (aid, times)] + lines[b2:])
+    raise LookupError("no independent complete pair")
 
 
 def _indep_complete_blocks(t):
